@@ -15,6 +15,16 @@ CHECKS = {
   note="Vertices are distinct concrete points (only indices matter); shapes of the listed sizes only. Index location logic, index-cell assembly and the equality of index queries with brute force on geometry are not covered by this check (geometric completeness of clipping is outside the technique, DESIGN §4 C06).",
   technique="go/ssa symbolic execution + SMT (BV indices, FP equality of selected constants), native replay",
   design="DESIGN.md §4 C06"),
+ "C08": dict(
+  text="Bounded symbolic model checking of the real EdgeQuery: the optimized search (index covering, queue, pruning, duplicate avoidance, result truncation) and the brute-force scan run on the same concrete index spanning four cube faces (36 point edges) for closest and furthest queries, a point target and a ShapeIndex target with and without maxError; maxResults is a solver variable in [1,40]; results must be identical (or within maxError and equal in number).",
+  note="Index geometry and targets are concrete (one index, two targets); only the options are symbolic, so this decides the search skeleton on that index, not the distance geometry (Cell.Distance lower bounds, cap/covering geometry are outside the technique, DESIGN §4 C08). sort.Slice = bubble network with the real Less.",
+  technique="go/ssa symbolic execution of real code on concrete geometry with symbolic options + SMT (BV/FP compare), native replay",
+  design="DESIGN.md §4 C08"),
+ "C13": dict(
+  text="Bounded symbolic model checking over call histories: (1) ShapeIndex: every history of <= 4 (quick) / 5 (thorough) operations from {Add, Remove(j), Build, Reset} (operation codes/operands are solver variables) followed by a query: index fresh, every present shape visible, no index cell references an absent shape, no Lock on a held mutex (self-deadlock), no panic; (2) EdgeQuery: FindEdges, then any two of {Distance, IsDistanceLess, IsDistanceGreater, IsConservativeDistanceLessOrEqual, FindEdges}, then FindEdges returns the same results, for closest/furthest, maxResults in [1,6].",
+  note="Shapes are four concrete one-point PointVectors / one concrete 6-point index; the real index construction runs concretely inside the executor. sync.RWMutex modelled as a ghost held-flag for the single executing thread; atomic load/store as plain accesses. Histories longer than the bound and the geometric equality of an updated index with a fresh build are outside.",
+  technique="go/ssa symbolic execution with symbolic operation sequences + SMT path feasibility, native replay of the history",
+  design="DESIGN.md §4 C13"),
 }
 NOT_BUILT = "check not built yet (designed in DESIGN.md section 4)"
 NA = {}
